@@ -47,7 +47,7 @@ def run(tier):
     v.cov = {"evaluations": info["states"], "distinct_nontrivial": info["states"] - info["skipped"],
              "rule": "one evaluation = one (catalogue state, DDL spelling) created on a real SQLite file, exported and re-created; distinct by state and spelling; non-trivial = start state accepted by the engine and re-projected equal to the model state",
              "inline_unique_spellings": info["inline_unique_variants"], "through_cli": ncli, "skipped": info["skipped"],
-             "spellings": {k: sum(1 for o in full if o["variant"].split("+")[0] == k) for k in ("plain", "inline", "exprindex", "exprindexdesc", "multiline", "lowerwhere")} | {"dflt": sum(1 for o in full if o["variant"].startswith("dflt:"))}}
+             "spellings": {k: sum(1 for o in full if o["variant"].split("+")[0] == k) for k in ("plain", "inline", "exprindex", "exprindexdesc", "multiline", "lowerwhere", "customtype")} | {"dflt": sum(1 for o in full if o["variant"].startswith("dflt:"))}}
     v.samples = [{"variant": o["variant"], "hcl": o.get("hcl", "")[:600], "sql": o.get("sql")} for o in full if o["variant"].endswith("+cli")][:1]
     v.assumptions = ["an inline UNIQUE constraint and a named unique index over the same columns are the same catalogue object", "SQLite only (no MySQL / PostgreSQL engine in the sandbox)"]
     return v.finish()
